@@ -144,26 +144,27 @@ def coq_expr(case, rq):
             f"in [norm_vals l; norm_vals d; norm_vals m])")
 
 
-def coq_file(cases):
+def coq_file(cases, rq):
     lines = ["From Coq Require Import List. Import ListNotations.",
              "From V.C09 Require Import Analysis.",
-             "Definition B := mkBlock."]
-    for rq in ("Repaired", "Coded"):
-        lines.append(f"Definition cases_{rq} : list (list (list (list nat))) := [")
-        lines.append(";\n".join(coq_expr(c, rq) for c in cases) + "].")
-        lines.append(f"Eval vm_compute in cases_{rq}.")
+             "Definition B := mkBlock.",
+             "Definition cases : list (list (list (list nat))) := [",
+             ";\n".join(coq_expr(c, rq) for c in cases) + "].",
+             "Eval vm_compute in cases."]
     return "\n".join(lines)
 
 
-def model_eval(ctx, cases, chunk=250):
+def model_eval(ctx, cases, rq="Repaired", chunk=250):
+    """`run_with schedule` of the Coq model (re-queue policy rq) on every case, by vm_compute."""
+    if not cases:
+        return []
     chunks = [cases[i:i + chunk] for i in range(0, len(cases), chunk)]
-    outs = ctx.coq_eval_many({f"cases{i}": coq_file(c) for i, c in enumerate(chunks)}, jobs=8, timeout=1500)
-    rep, cod = [], []
+    outs = ctx.coq_eval_many({f"cases_{rq}_{i}": coq_file(c, rq) for i, c in enumerate(chunks)}, jobs=8, timeout=1500)
+    res = []
     for i in range(len(chunks)):
-        vals = vlib.parse_coq_values(outs[f"cases{i}"])
-        rep += vals[0]
-        cod += vals[1]
-    return rep, cod
+        res += vlib.parse_coq_values(outs[f"cases_{rq}_{i}"])[0]
+    # a liveness result is a single component: unwrap to the implementation's format
+    return [v[0] if c["kind"] == "live" else v for c, v in zip(cases, res)]
 
 
 # ------------------------------------------------------------------------------------ impl side
@@ -189,7 +190,11 @@ def replay_text(case, impl_mode="explore"):
 
 # ------------------------------------------------------------------------------------ run
 def run(ctx):
+    import time
+    t0 = time.time()
+    timing = {}
     info = ctx.coq_props()
+    timing["coq_props"] = round(time.time() - t0, 1)
     r = vlib.rng(ctx.seed, "C09")
     reported = [0]
     def report_spec(case, observed, expected, how, extra=None):
@@ -225,34 +230,42 @@ def run(ctx):
                             + ("the result depends on the pop order" if len(o["results"]) > 1 else "the result differs from the path-based solution"))
         return bad
     bad_corpus = check_explored(corpus, "corpus")
+    timing["corpus"] = round(time.time() - t0, 1)
 
     # ---- 2. random (CFG, schedule) pairs: impl vs model vs spec
-    n_rand = 1200 if ctx.quick else 12000
+    n_rand = 1000 if ctx.quick else 12000
     cases = [rand_case(r) for _ in range(n_rand)]
     impl = impl_batch(ctx, "run", cases)
-    model_rep = model_cod = None
+    timing["impl_random"] = round(time.time() - t0, 1)
+    model_rep = None
     try:
-        model_rep, model_cod = model_eval(ctx, cases)
+        model_rep = model_eval(ctx, cases, "Repaired")
     except Exception as e:  # noqa: BLE001
         ctx.notes.append(f"model evaluation failed: {str(e)[-800:]}")
-    agree_rep = agree_cod = spec_bad = 0
+    timing["model_random"] = round(time.time() - t0, 1)
+    agree_rep = spec_bad = 0
     mism = []
+    if model_rep is not None:
+        mism = [i for i, (m, o) in enumerate(zip(model_rep, impl)) if m != o.get("res", o)]
+        agree_rep = len(cases) - len(mism)
+    # diagnosis: does the implementation behave like the model with the AS-RELEASED re-queue?
+    coded = {}
+    if mism:
+        try:
+            sub = mism[:250]
+            coded = dict(zip(sub, model_eval(ctx, [cases[i] for i in sub], "Coded")))
+        except Exception as e:  # noqa: BLE001
+            ctx.notes.append(f"as-coded model evaluation failed: {str(e)[-300:]}")
+    agree_cod = sum(1 for i, v in coded.items() if v == impl[i].get("res", impl[i]))
     for i, (case, o) in enumerate(zip(cases, impl)):
         res = o.get("res", o)
         exp = spec_paths.expected(case)
         if res != exp:
             spec_bad += 1
             report_spec(case, res, exp, "random (CFG, schedule) pair; pops=" + str(o.get("pops")),
-                        {"coded_model_agrees_with_impl": None if model_cod is None else model_cod[i] == res})
-        if model_rep is not None:
-            if model_rep[i] == res:
-                agree_rep += 1
-            else:
-                mism.append(i)
-            if model_cod[i] == res:
-                agree_cod += 1
-    # a model/implementation difference that is not already explained by a spec violation of
-    # the implementation is a broken tie
+                        {"model_with_as_released_requeue_gives_the_same": (coded[i] == res) if i in coded else None})
+    # a model/implementation difference on a case where the implementation meets the
+    # specification is a broken tie (wrong model or harness), reported as such
     if model_rep is not None:
         for i in mism:
             res = impl[i].get("res", impl[i])
@@ -260,22 +273,24 @@ def run(ctx):
                 ctx.report("model-mismatch:" + canon(cases[i]) + str(cases[i]["sched"]), "correspondence",
                            "Analysis.v run_with vs real analysis", {"case": cases[i], "impl": res, "model": model_rep[i]})
                 break
-        if model_rep is not None and spec_bad == 0 and mism:
-            pass
     else:
         ctx.report("model-eval", "correspondence", "Analysis.v could not be evaluated",
                    {"notes": ctx.notes}, found_input=False)
 
     # ---- 3. failing-input search: small CFGs x every pop order
     small = list(small_space(2, ["live0", "live1", "liveR", "ass0", "ass1", "ass2", "an"]))
-    exhaustive2 = len(small)
+    if ctx.quick:
+        small = small[r.randrange(5)::5]
+    exhaustive2 = 0 if ctx.quick else len(small)
     if ctx.quick:
         small += list(small_space(3, ["live0", "ass0"], r, 1))[::23]
         small += [dict(rand_case(r, nmax=5, nvars=2), sched=[]) for _ in range(300)]
     else:
         small += list(small_space(3, ["live0", "live1", "ass0", "ass2"], r, 2))[::3]
         small += [dict(rand_case(r, nmax=6, nvars=2), sched=[]) for _ in range(3000)]
+    timing["spec_random"] = round(time.time() - t0, 1)
     bad_small = check_explored(small, "search")
+    timing["search"] = round(time.time() - t0, 1)
 
     # ---- 4. documented deviation from the literal wording (borrowed variable on an idle cycle)
     borrow = {"kind": "analyze", "succ": [[2], [], [2, 3], [1]], "dsucc": [[], [], [], []],
@@ -312,13 +327,13 @@ def run(ctx):
         evaluations=len(cases) + n_explore_runs, distinct_nontrivial=len(distinct),
         rule="random: seeded CFGs of 2..6 blocks (sparse/dense/chain, dummy edges, duplicate edges, self loops, unreachable blocks), 3-4 variables, kinds live/ass/analyze, random schedule (rank of the popped block); search: ALL graphs on 2 blocks x all use/def patterns x 7 configurations, a slice of all graphs on 3 blocks, random CFGs of <=5-6 blocks, each under EVERY pop order (state-graph exploration of the real loop); non-trivial = at least one dummy edge or a cycle; distinct = by CFG+sets+configuration (schedule ignored)",
         traces_validated_against_impl=agree_rep, model_vs_impl_cases=len(cases) if model_rep is not None else 0,
-        model_repaired_agrees=agree_rep, model_as_coded_agrees=agree_cod,
+        model_repaired_agrees=agree_rep, model_mismatches=len(mism), mismatches_explained_by_as_released_requeue=agree_cod,
         spec_vs_impl_random_disagreements=spec_bad, explored_cases=explored_cases, explored_complete_runs=n_explore_runs,
         explored_states=n_states, explored_disagreements=bad_small + bad_corpus, exhaustive_2_block_cases=exhaustive2,
         corpus_cases=len(corpus), input_histogram=dict(sorted(hist.items())),
         samples=[{"case": cases[j], "impl": impl[j], "model": None if model_rep is None else model_rep[j]} for j in (0, len(cases) // 2)]
                 + [{"explored_case": small[len(small) // 2]}],
-        notes=ctx.notes)
+        cumulative_seconds=timing, notes=ctx.notes)
     return ctx.finish(LEVEL, cov, [
         "the Coq model is tied to analysis.py/cfg.py by differential execution under shared schedules, not by translation",
         "predecessor lists of every Python CFG are the inverse of its successor lists (asserted per case by the harness)",
